@@ -1037,7 +1037,7 @@ func (c *c17Case) class() string {
 
 // C17 — who may act as agent, user and admin.
 func C17(r *core.Run) {
-	r.SetRule("worlds of 1-3 registered backends (distinct/shared agent accounts, per-user/shared end users, plain and exotic IDs, pending and answered requests with planted secrets) x caller identity {no OAuth, stranger, OAuth admin that is no agent, each agent} x endpoint {pending, request, response} x named backend {each, unknown, absent} x request ID {pending/answered of each backend, unknown, absent}; admin API {list, add, takeover, garbage, delete, other methods/paths} x {App Engine admin, OAuth admin, plain user, agent, nobody} with follow-up calls on the resulting state; end users x paths through the client handler; random-order histories on evolving state; every call goes through appengine's handleHTTP and the app's routing closure; class = (kind, endpoint, identity class, named-backend class, request-ID class, history?)")
+	r.SetRule("worlds of 1-3 registered backends (distinct/shared agent accounts, per-user/shared end users, plain and exotic IDs, IDs related across a separator (B2 = B1<sep>word for sep in : / | \" space . % \\) with request IDs crafted so that (backend, request ID) read across the separator names another backend's request, pending and answered requests with planted secrets) x caller identity {no OAuth, stranger, OAuth admin that is no agent, each agent} x endpoint {pending, request, response} x named backend {each, unknown, absent} x request ID {pending/answered of each backend, unknown, absent}; admin API {list, add, takeover, garbage, delete, other methods/paths} x {App Engine admin, OAuth admin, plain user, agent, nobody} with follow-up calls on the resulting state; end users x paths through the client handler; scripted histories (agent works, the same backend ID is registered again for another agent account and end user, old and new agent on every endpoint, former and new end user through the client handler, unregister, original registration restored) and random-order histories, both judged against an evolving model of who is registered; every call goes through appengine's handleHTTP and the app's routing closure; class = (kind, endpoint, identity class, named-backend class, request-ID class, history?)")
 	r.Assume("/cron/delete is executed but not judged (documented as restricted by app.yaml); an authorised call reading or writing keys in its own backend's namespace that merely contain a caller-supplied foreign request ID is not counted as touching the other backend; status codes for unknown/absent request IDs are only required to be 4xx; client requests are cut short once queued (incoming context cancelled) instead of waiting 30 s")
 	bin := r.MustBuild(e3Build(r))
 	rng := r.Rand("c17")
